@@ -989,6 +989,20 @@ FLUSH_JOB_ZUC256_EEA3:
         vmovdqa32       [state + _zuc_state + i*64]{k1}, zmm0
 %assign i (i + 1)
 %endrep
+        ; Clear keystream of lane that is returned: 8 chunks of 16 bytes,
+        ; chunk j of lane idx is at (idx & 3)*512 + j*64 + (idx >> 2)*16
+        mov     tmp, idx
+        and     tmp, 3
+        shl     tmp, 9
+        mov     tmp2, idx
+        shr     tmp2, 2
+        shl     tmp2, 4
+        add     tmp, tmp2
+%assign i 0
+%rep 8
+        vmovdqa [state + _zuc_args_KS + tmp + i*64], xmm0
+%assign i (i + 1)
+%endrep
 %endif
 
 %%return_submit_eia3:
@@ -1191,6 +1205,29 @@ FLUSH_JOB_ZUC256_EEA3:
         vmovdqa32       [state + _zuc_state + i*64]{k1}, zmm0
 %assign i (i + 1)
 %endrep
+        ; Clear keystream of the same lanes: 8 chunks of 16 bytes per lane,
+        ; chunk j of lane l is at (l & 3)*512 + j*64 + (l >> 2)*16
+        kmovw           DWORD(tmp3), k1
+        xor             DWORD(tmp4), DWORD(tmp4)
+%%clear_ks_flush_eia3:
+        bt              DWORD(tmp3), DWORD(tmp4)
+        jnc             %%skip_clear_ks_flush_eia3
+        mov             DWORD(tmp2), DWORD(tmp4)
+        and             DWORD(tmp2), 3
+        shl             DWORD(tmp2), 9
+        mov             DWORD(tmp1), DWORD(tmp4)
+        shr             DWORD(tmp1), 2
+        shl             DWORD(tmp1), 4
+        add             tmp2, tmp1
+%assign i 0
+%rep 8
+        vmovdqa         [state + _zuc_args_KS + tmp2 + i*64], xmm0
+%assign i (i + 1)
+%endrep
+%%skip_clear_ks_flush_eia3:
+        inc             DWORD(tmp4)
+        cmp             DWORD(tmp4), 16
+        jb              %%clear_ks_flush_eia3
 %endif
 
 %ifdef SAFE_DATA
